@@ -23,8 +23,8 @@
 //   cstat|digest=<hash of the dumps of the history>|dumps=<distinct dumps>|states=<distinct status texts>|rt=<n>|lock=<n>
 //   state|<class>|<status text>            (deduplicated per batch)
 //   sum|<class>|states=<n>|rt=<n>|lock=<n>        (per batch; lost for a batch that crashed)
-//   crash|<signal>|<case id>|<phase>      phase: orig_make orig_op orig_dump orig_query receiver_make (the history itself)
-//                                                load loaded_dump loaded_OK section_load twin_op twin_dump twin_query (C15's business)
+//   crash|<signal>|<case id>|<phase>|<note about the text the twin was loaded from>      phase: orig_make orig_op orig_dump orig_OK orig_view orig_query receiver_make (the history itself)
+//                                                load loaded_dump loaded_OK section_load twin_op twin_view tiebreak twin_query (C15's business)
 //   end
 #include "ppl.hh"
 #include "interfaced_boxes.hh"
@@ -43,9 +43,10 @@ using namespace pplv_io;
 static pplv::Journal J(1);
 static bool g_verbose = false;
 // what the child is doing right now (shared with the parent, which reports it when the child dies)
-struct Shared { volatile long case_id; char phase[40]; };
+struct Shared { volatile long case_id; char phase[40]; char note[64]; };
 static Shared* g_sh = 0;
 static void phase(const char* p) { if (g_sh) { strncpy(g_sh->phase, p, sizeof(g_sh->phase) - 1); } }
+static void note(const std::string& n) { if (g_sh) { memset(g_sh->note, 0, sizeof(g_sh->note)); strncpy(g_sh->note, n.c_str(), sizeof(g_sh->note) - 1); } }
 
 // ------------------------------------------------------------------------------------------ text helpers
 template <class T> static std::string dump(const T& x) { std::ostringstream s; x.ascii_dump(s); return s.str(); }
@@ -170,7 +171,9 @@ static Constraint rnd_oct_con(Rng& r, dimension_type n, bool bd_only, bool frac)
   int si = r.chance(1, 2) ? 1 : -1, sj = r.chance(1, 2) ? 1 : -1;
   if (bd_only) sj = -si;
   Coefficient den = 1;
-  if (frac) { static const long ds[] = {1, 2, 3, 7, 10}; den = ds[r.below(5)]; if (r.chance(1, 12)) { den = 10; for (int k = 0; k < 30; ++k) den *= 10; } }
+  if (frac) { static const long ds[] = {1, 2, 3, 7, 10}; den = ds[r.below(5)];
+    if (r.chance(1, 12)) { den = 10; for (int k = 0; k < 30; ++k) den *= 10; }
+    else if (r.chance(1, 25)) { den = 10; for (int k = 0; k < 318; ++k) den *= 10; } }     // bounds below DBL_MIN: denormals (float: underflow)
   e += den * si * Variable(i);
   if (i != j && r.chance(2, 3)) e += den * sj * Variable(j);
   Coefficient c = r.range(-6, 9); if (r.chance(1, 15)) c = big_coeff(r);
@@ -283,6 +286,7 @@ template <class D> struct Engine {
         twin.reset(); twin_age = 0;
         if (okb && (!oka || r.chance(1, 2))) { twin = std::move(b); twin_kind = kind; twin_canon = okb == 1; }
         else if (oka) { twin = std::move(a); twin_kind = "fresh"; twin_canon = oka == 1; }
+        note(twin ? D::twin_note(d) : std::string(""));
       }
       uint64_t opseed = r.next();
       phase("orig_op");
@@ -292,12 +296,13 @@ template <class D> struct Engine {
         phase("twin_op");
         std::string ey = apply(*twin, opseed);
         if (ex != ey) { fail(twin_kind, "suffix_exc", "", "", "", "", ex + " vs " + ey); twin.reset(); continue; }
-        phase("orig_dump");
-        std::string dx = dump(x);
-        phase("twin_dump");
-        std::string dy = dump(*twin);
-        if (twin_canon) { dx = canon_dead(dx); dy = canon_dead(dy); }
-        if (dx != dy) { fail(twin_kind, "suffix_dump", twin_canon ? "twin_with_dead_parts" : "", "", dx, dy, first_diff(dx, dy));
+        phase("orig_view");
+        std::string dx = D::lock_view(x, twin_canon);
+        phase("twin_view");
+        std::string dy = D::lock_view(*twin, twin_canon);
+        bool differs = dx != dy;
+        if (differs) { phase("tiebreak"); if (D::lock_tiebreak(x, *twin)) differs = false; }
+        if (differs) { fail(twin_kind, "suffix_dump", twin_canon ? "twin_with_dead_parts" : "", "", dx, dy, first_diff(dx, dy));
           if (g_verbose) { J.line("verbose x|" + esc(dx)); J.line("verbose twin|" + esc(dy)); }
           twin.reset(); continue; }
         if (r.chance(1, 2)) {
@@ -331,6 +336,12 @@ template <class D> struct Engine {
 };
 
 struct Hooks {
+  // lock-step comparison of the original and its loaded twin after an operation: 0 equal, 1 different.
+  // Default: the complete dumps (every internal detail).  `canon`: the twin was loaded with dead parts dropped.
+  template <class T> static std::string lock_view(const T& x, bool canon) { return canon ? canon_dead(dump(x)) : dump(x); }
+  template <class T> static bool lock_tiebreak(const T&, const T&) { return false; }
+  // a structural fact about the text a twin was loaded from (reported with a crash of the twin)
+  static std::string twin_note(const std::string&) { return ""; }
   static std::string extra_prior() { return ""; }
   static std::string diagnose(const std::string&, const std::string&, const std::string&) { return ""; }
 };
@@ -574,6 +585,14 @@ template <class SH, class N, bool OCT> struct ShapeD : Hooks {
   static std::string status(const std::string& d) { return line_of(d, OCT ? 1 : 0); }
   static void harvest_box(const std::string&, const std::string&, const std::string&) {}
   template <class E> static void harvest_parts(const std::string& d, E&) {
+    if (!std::numeric_limits<N>::is_exact) {
+      std::istringstream is(d); std::string w;
+      while (is >> w) {
+        if (w == "nan" || w == "-inf") harvest(std::string("note|special_value_stored_") + w + "|" + name());
+        else if (w.size() > 310 && w.compare(0, 2, "0.") == 0 && w.find_first_not_of('0', 2) > 300) harvest(std::string("note|denormal_stored|") + name());
+        else if (w.size() > 20 && w.find('.') != std::string::npos) harvest(std::string("note|needs_more_than_17_digits|") + name());
+      }
+    }
     if (d.size() > 700) return;
     if (OCT) { size_t p = d.find('\n'); p = d.find('\n', p + 1); harvest(std::string("orm|") + NumName<N>::s() + "|" + esc(d.substr(p + 1))); }
     else {
@@ -663,6 +682,25 @@ template <class BX, bool EXACT, bool STRICT> struct BoxD : Hooks {
 // ------------------------------------------------------------------------------------------ Pointset_Powerset
 template <class PD> struct PowersetD : Hooks {
   static std::string extra_prior() { return dump(typename PD::T()); }
+  // Pointset_Powerset does not dump its `reduced` flag (a loaded powerset is always "not reduced"), so after an
+  // omega_reduce() the lazy states of the disjuncts of original and twin may legitimately differ: the lock-step
+  // comparison is on the *set of disjuncts up to their minimized descriptions*, with geometric equality as tie-break.
+  static std::string view(const Pointset_Powerset<typename PD::T>& x) {
+    Pointset_Powerset<typename PD::T> c(x); c.omega_reduce();
+    std::vector<std::string> v;
+    for (typename Pointset_Powerset<typename PD::T>::const_iterator i = c.begin(); i != c.end(); ++i) v.push_back(PD::query(i->pointset()));
+    std::sort(v.begin(), v.end());
+    std::ostringstream o; o << "space_dim " << c.space_dimension() << " size " << v.size() << "\n";
+    for (size_t k = 0; k < v.size(); ++k) o << "disjunct\n" << v[k];
+    return o.str();
+  }
+  static std::string lock_view(const Pointset_Powerset<typename PD::T>& x, bool) { return view(x); }
+  static bool lock_tiebreak(const Pointset_Powerset<typename PD::T>& x, const Pointset_Powerset<typename PD::T>& y) {
+    bool geq = false;
+    try { geq = x.space_dimension() == y.space_dimension() && x.geometrically_equals(y); } catch (...) { geq = false; }
+    if (geq) harvest("note|powerset_views_differ_but_geometrically_equal");
+    return geq;
+  }
   static std::string diagnose(const std::string&, const std::string& text, const std::string& result) {
     if (result.empty()) return "";
     return canon_dead(text) == canon_dead(result) ? "dead_parts_only" : "";
@@ -702,7 +740,7 @@ template <class PD> struct PowersetD : Hooks {
   static std::string query(const T& x) {
     T c(x); std::ostringstream o; using namespace IO_Operators;
     o << c.size() << " " << c.is_empty() << " " << c.is_universe() << "\n";
-    c.omega_reduce(); o << c.size() << "\n" << canon_dead(dump(c));
+    o << view(x);
     return o.str();
   }
   static std::string status(const std::string&) { return ""; }
@@ -849,6 +887,7 @@ struct MipD : Hooks {
 
 // ------------------------------------------------------------------------------------------ PIP_Problem
 struct PipD : Hooks {
+  static std::string twin_note(const std::string& d) { return d.find("DECISION") != std::string::npos ? "loaded_pip_tree_has_decision_node" : ""; }
   static std::string diagnose(const std::string& p, const std::string& t, const std::string& r) { return diagnose_appended(p, t, r); }
   typedef PIP_Problem T;
   static const char* name() { return "PIP_Problem"; }
@@ -1069,7 +1108,8 @@ int main(int argc, char** argv) {
   reg<ShapeD<Octagonal_Shape<mpz_class>, mpz_class, true> >(4); reg<ShapeD<Octagonal_Shape<mpq_class>, mpq_class, true> >(4);
   reg<ShapeD<Octagonal_Shape<double>, double, true> >(4); reg<ShapeD<Octagonal_Shape<float>, float, true> >(2);
   reg<BoxD<Rational_Box, true, true> >(5); reg<BoxD<Z_Box, true, false> >(4);
-  reg<BoxD<Double_Box, false, true> >(4); reg<BoxD<Int32_Box, true, false> >(2);
+  reg<BoxD<Double_Box, false, true> >(4); reg<BoxD<Float_Box, false, true> >(2);
+  // (native-integer boxes are left out: an unbounded boundary keeps an uninitialised value that the dump prints)
   reg<PowersetD<PolyD<C_Polyhedron, false> > >(3); reg<PowersetD<PolyD<NNC_Polyhedron, true> > >(3);
   reg<PowersetD<GridD> >(2); reg<PowersetD<ShapeD<BD_Shape<mpq_class>, mpq_class, false> > >(2);
   reg<PowersetD<BoxD<Rational_Box, true, true> > >(2);
@@ -1099,7 +1139,7 @@ int main(int argc, char** argv) {
       struct rlimit rl; rl.rlim_cur = 120; rl.rlim_max = 125; setrlimit(RLIMIT_CPU, &rl);
       struct rlimit core; core.rlim_cur = core.rlim_max = 0; setrlimit(RLIMIT_CORE, &core);
       for (long h = next; h < bend; ++h) {
-        g_sh->case_id = h;
+        g_sh->case_id = h; note("");
         uint64_t hs = (uint64_t)seed * 1000003ull + (uint64_t)h;
         Rng pick(hs ^ 0xC15C15ull);
         ClassRunner& c = g_classes[wheel[pick.below((unsigned)wheel.size())]];
@@ -1114,7 +1154,7 @@ int main(int argc, char** argv) {
     int st = 0; waitpid(pid, &st, 0);
     if (WIFSIGNALED(st) || (WIFEXITED(st) && WEXITSTATUS(st) != 0)) {
       std::ostringstream o;
-      o << "crash|" << (WIFSIGNALED(st) ? pplv::signal_name(WTERMSIG(st)) : "exit") << "|" << g_sh->case_id << "|" << g_sh->phase;
+      o << "crash|" << (WIFSIGNALED(st) ? pplv::signal_name(WTERMSIG(st)) : "exit") << "|" << g_sh->case_id << "|" << g_sh->phase << "|" << g_sh->note;
       J.line(o.str()); J.line("end");
       next = g_sh->case_id + 1;
     }
